@@ -475,7 +475,7 @@ def _replay_job(args):
 # ------------------------------------------------------------------------------------------
 # TLC jobs (started without blocking: the exhaustive runs overlap with the replay)
 # ------------------------------------------------------------------------------------------
-def tlc_start(ctx, name, cfg, env, workers=1, extra=()):
+def tlc_start(ctx, name, cfg, env, workers=1, extra=(), heap="2g"):
     import subprocess
     import time
     d = os.path.join(ctx.rundir, "tlc")
@@ -483,7 +483,7 @@ def tlc_start(ctx, name, cfg, env, workers=1, extra=()):
     meta = os.path.join(core.VERIF, "run", "_meta", f"MC_Session-{name}-{os.getpid()}-{time.time_ns()}")
     os.makedirs(meta, exist_ok=True)
     out = os.path.join(d, name + ".out")
-    cmd = ["java", "-XX:+UseParallelGC", "-Xss64m", "-cp", core.TLA_CP, "tlc2.TLC", "-workers", str(workers),
+    cmd = ["java", "-XX:+UseParallelGC", "-XX:ParallelGCThreads=2", "-Xss64m", f"-Xmx{heap}", "-cp", core.TLA_CP, "tlc2.TLC", "-workers", str(workers),
            "-metadir", meta, "-noGenerateSpecTE", "-config", cfg] + list(extra) + ["MC_Session"]
     e = dict(os.environ)
     e.pop("JAVA_TOOL_OPTIONS", None)
@@ -571,7 +571,7 @@ def run(ctx):
     env = {"C10_SERIES": red}
     # exhaustive runs: exact breadth-first levels need one worker (with several workers the level at which
     # TLC first reaches a state is not deterministic); independent runs are separate JVMs
-    exh = [tlc_start(ctx, c[:-4], c, env) for c in
+    exh = [tlc_start(ctx, c[:-4], c, env, heap=ctx.pick("2g", "4g")) for c in
            ctx.pick(["MC_Session.cfg", "MC_Session_nf1.cfg"],
                     ["MC_Session_thorough.cfg", "MC_Session_thorough_nf1.cfg", "MC_Session_thorough_nf3.cfg"])]
     nwalks = ctx.pick(240, 3000)
@@ -643,7 +643,7 @@ def run(ctx):
         jobs.append((n, sd, st, calls, nf_model))
     results = core.parallel_map(_replay_job, jobs, chunksize=2)
     _phase("replay")
-    verdicts = ctx.validate("Trace_Session", results, env={"C10_SERIES": full})
+    verdicts = ctx.validate("Trace_Session", results, env={"C10_SERIES": full}, heap="2g")
     _phase("trace validation")
     drift = {}
     for cid, vjs in sorted(verdicts.items()):
@@ -666,7 +666,7 @@ def run(ctx):
     if missing:
         raise core.MachineryFailure(f"clauses never exercised by this run (vacuous): {missing}")
     for job in exh:
-        res = tlc_wait(job, ctx.pick(300, 3000))
+        res = tlc_wait(job, ctx.pick(900, 5400))
         account(ctx, job, res)
         if res.invariant_violated or not res.completed:
             raise core.MachineryFailure(
@@ -707,5 +707,5 @@ def replay(ctx, payload):
     ctx.add_case(inp)
     ctx.add_case({"replay": True})
     results = core.parallel_map(_replay_job, [(1, sd, st, inp["calls"], inp["nf"])])
-    v = ctx.validate("Trace_Session", results, env={"C10_SERIES": full})
+    v = ctx.validate("Trace_Session", results, env={"C10_SERIES": full}, heap="2g")
     ctx.judge(v, {1: inp})
